@@ -26,6 +26,7 @@ type vfPSState struct {
 	delivered   []string // payload markers in invocation order
 	delivered2  []string // the same for the second subscription (topicB), when there is one
 	unsub2Err   error
+	sameTopic   bool // s2=same: the second subscription listens on topicA too
 	startedLate []string // invocations that started for messages published after Unsubscribe returned
 	pubBefore   map[string]bool
 	pubAfter    map[string]bool
@@ -59,6 +60,7 @@ func vfPSMake(scn string) (func(), func(*vsched.Exec) (string, *vsched.Violation
 		var raw func(topic string, data []byte)
 		if cfg["t"] == "nats" {
 			c := fakenats.NewConn()
+			c.Async = cfg["async"] == "1" // messages take a trip through the network before they arrive
 			st.nats = c
 			factory := NewFNatsSubscriberFactoryBuilder(c).WithWorkerCount(uint(workers)).WithQueueLength(4).Build()
 			sub = factory.GetTransport()
@@ -70,7 +72,7 @@ func vfPSMake(scn string) (func(), func(*vsched.Exec) (string, *vsched.Violation
 				// a short work queue, so that a handful of messages is a burst that fills it
 				vfPokeChanCap(sub, "workC", q)
 			}
-			if cfg["s2"] == "1" {
+			if cfg["s2"] == "1" || cfg["s2"] == "same" {
 				sub2 = factory.GetTransport()
 				vfPokeField(sub2, "workerCount", uint(workers))
 			}
@@ -81,7 +83,7 @@ func vfPSMake(scn string) (func(), func(*vsched.Exec) (string, *vsched.Violation
 			c.FailAcks = cfg["ack"] == "fail"
 			st.stomp = c
 			sub = newStompFSubscriberTransport(c, "", false)
-			if cfg["s2"] == "1" {
+			if cfg["s2"] == "1" || cfg["s2"] == "same" {
 				sub2 = newStompFSubscriberTransport(c, "", false)
 			}
 			pub = newStompFPublisherTransport(c, 0, "")
@@ -136,7 +138,12 @@ func vfPSMake(scn string) (func(), func(*vsched.Exec) (string, *vsched.Violation
 			panic(err)
 		}
 		if sub2 != nil {
-			if err := sub2.Subscribe("topicB", mkcb(true)); err != nil {
+			t2 := "topicB"
+			if cfg["s2"] == "same" {
+				t2 = "topicA"
+				st.sameTopic = true
+			}
+			if err := sub2.Subscribe(t2, mkcb(true)); err != nil {
 				panic(err)
 			}
 		}
@@ -276,6 +283,31 @@ func vfPSMake(scn string) (func(), func(*vsched.Exec) (string, *vsched.Violation
 		if st.unsubErr != nil {
 			viol("C07/unsubscribe-error", fmt.Sprint(st.unsubErr))
 		}
+		if cfg["s2"] == "same" {
+			// a second subscriber of the same topic on the same connection, which stays subscribed:
+			// every valid topicA message reaches it exactly once, in order, and nothing else does
+			count2 := map[string]int{}
+			last := -1
+			for _, d := range st.delivered2 {
+				count2[d]++
+				if !strings.HasPrefix(d, "V") {
+					viol("C07/foreign-or-malformed-delivered", fmt.Sprintf("the second topicA subscription's handler was invoked for %s", d))
+				}
+				if count2[d] > 1 {
+					viol("C07/duplicate-delivery", fmt.Sprintf("message %s delivered %d times to the second topicA subscription", d, count2[d]))
+				}
+				if idx := vfMarkIndex(d); workers == 1 && idx < last {
+					viol("C07/out-of-order", fmt.Sprintf("single-worker second topicA subscription delivered %v out of publish order", st.delivered2))
+				} else {
+					last = idx
+				}
+			}
+			for i, k := range msgs {
+				if m := fmt.Sprintf("%s%d", k, i); k == "V" && count2[m] != 1 {
+					viol("C07/message-lost/sibling-subscription", fmt.Sprintf("topicA message %s was never delivered to the second topicA subscription, which stayed subscribed (the first one: unsubscribe=%s)", m, cfg["u"]))
+				}
+			}
+		}
 		if cfg["s2"] == "1" {
 			// the second subscription (topicB) is independent of the first: it gets every topicB
 			// message exactly once whatever happens to the first one, and nothing else
@@ -350,6 +382,11 @@ func init() {
 			for _, s := range []string{"V.V.V", "V.M0.V", "M3.V.V", "V.V.F"} {
 				out = append(out, fmt.Sprintf("t=nats,w=2,m=%s,u=none", s), fmt.Sprintf("t=nats,w=2,m=%s,u=race", s))
 			}
+			// messages that are still on their way through the network when the next thing happens
+			for _, s := range []string{"V.V.V", "V.M0.V", "M3.V.V"} {
+				out = append(out, fmt.Sprintf("t=nats,w=1,m=%s,u=none,async=1", s), fmt.Sprintf("t=nats,w=1,m=%s,u=race,async=1", s), fmt.Sprintf("t=nats,w=1,m=%s,u=2,async=1", s))
+			}
+			out = append(out, "t=nats,w=2,m=V.V.V,u=none,async=1", "t=nats,w=1,m=V.F.V,u=1,s2=1,async=1")
 			// two subscriptions made from one factory / connection, on different topics
 			for _, t := range []string{"nats", "stomp"} {
 				for _, s := range []string{"V.F.V", "F.V.F", "V.V.F", "F.F.V"} {
@@ -360,6 +397,16 @@ func init() {
 				}
 			}
 			out = append(out, "t=nats,w=2,m=V.F.V,u=none,s2=1", "t=nats,w=2,m=F.V.F,u=1,s2=1")
+			// two subscribers of the SAME topic on one connection
+			for _, t := range []string{"nats", "stomp"} {
+				us := []string{"none", "1"}
+				if tier == "thorough" {
+					us = append(us, "race", "0", "2")
+				}
+				for _, u := range us {
+					out = append(out, fmt.Sprintf("t=%s,w=1,m=V.V.F,u=%s,s2=same", t, u), fmt.Sprintf("t=%s,w=1,m=V.M0.V,u=%s,s2=same", t, u))
+				}
+			}
 			// bursts against a short work queue (0 or 1 slots): more messages outstanding than the queue
 			// and the worker hold
 			for _, q := range []string{"0", "1"} {
